@@ -29,10 +29,18 @@ CLAIMS['C18'] = ('Bounded model checking of the four slot-array memory managers 
 CLAIMS['C19'] = ('Bounded model checking of the real terminal codec (terminal.h) and of forest::getEdgeForValue/getValueForEdge with every input symbolic at full machine '
                  'width: all 2^64 long values, all non-NaN float bit patterns, both booleans, +infinity; round trip, injectivity, unique zero handle, overflow rejection.',
                  'DESIGN.md 11.2 C19')
+CLAIMS['C10'] = ('Bounded model checking of the terminal (level 0) cases of the three copy implementations of the real operations/copy.cc (copy_MT, copy_EV<EdgeOp_plus>, '
+                 'copy_EV_fast) on operation/forest records: for every ordered pair of source/target kinds reached there, with the source value symbolic at full width '
+                 '(integers, floats, EV+ values, +infinity), the result denotes the documented scalar conversion, +infinity is preserved or rejected. The recursion over nodes '
+                 'and the round trip over whole functions are not covered (whole-library level).', 'DESIGN.md 11.2 C10')
+CLAIMS['C12'] = ('Component-level bounded model checking of the storage/memory-manager policies: the real node storage (storage/simple.cc) over each of the four slot-array '
+                 'memory managers and each storage option stores two nodes, releases one, stores a third into the recycled memory (padding recorded in the node tail) '
+                 'and reads both back exactly (children symbolic). Together with C18 (managers) and C06 (deletion policies in node_headers). Policy independence of whole '
+                 'operation histories is not covered (whole-library level).', 'DESIGN.md 11.2 C12')
 for p, why in [
     ('C03', 'construction from minterms and evaluation'), ('C04', 'set operations over forests'), ('C07', 'compute tables inside operations (and ct_styles.cc fixes its table at 1024+ entries, no reachable small bound)'),
-    ('C08', 'reachability fixed points'), ('C09', 'image operations over relation nodes'), ('C10', 'copy between real forests'), ('C11', 'iterators and cardinality over real forests'),
-    ('C12', 'identical scripted histories under every policy combination'), ('C13', 'variable reordering of real forests'), ('C15', 'index-set conversion and lookup over real forests'),
+    ('C08', 'reachability fixed points'), ('C09', 'image operations over relation nodes'), ('C11', 'iterators and cardinality over real forests'),
+    ('C13', 'variable reordering of real forests'), ('C15', 'index-set conversion and lookup over real forests'),
     ('C17', 'library/domain/forest lifecycles'), ('C20', 'saturation over partitioned relations')]:
     NA[p] = L3 + 'no leaf kernel of this property (%s) is separable from that set-up, so no solver-decided check is claimed.' % why
 NA['C14'] = 'depends on libc/libstdc++ text formatting and parsing (fprintf/%e, istream) that cannot be encoded; stubbing it would assume the property'
